@@ -113,6 +113,7 @@ def run_check(mod, tier, nproc):
     harness_errors = []
     outcomes = 0
     njobs = 0
+    merges = []
     for r in run_pool(mod.__name__, jobs, nproc):
         njobs += 1
         if 'harness_error' in r:
@@ -144,9 +145,18 @@ def run_check(mod, tier, nproc):
         for k, v in r.get('errors', {}).items():
             errors[k] += v
         violations.extend(r.get('violations', []))
+        if 'merge' in r:
+            merges.append(r['merge'])
         for s in r.get('samples', []):
             if len(samples) < 12:
                 samples.append(s)
+    if hasattr(mod, 'finalize') and not harness_errors:
+        # global oracles over the union of all jobs (e.g. order isomorphism over all hands)
+        fv, fc, fx = mod.finalize(merges, tier)
+        violations.extend(fv)
+        counters.update(fc)
+        agg['distinct'] += fx.get('distinct', 0)
+        agg['validated'] += fx.get('validated', 0)
     wall = time.time() - t0
 
     # verdicts ---------------------------------------------------------
@@ -185,12 +195,15 @@ def run_check(mod, tier, nproc):
     # evidence -----------------------------------------------------------
     level = mod.LEVEL
     cov = {}
-    if level == 'model_checking':
+    if level == 'model_checking' and agg['states']:
         cov.update(states=agg['states'], transitions=agg['transitions'],
                    traces_validated_against_impl=agg['validated'])
         cov['terminal_states'] = agg['terminals']
         cov['max_depth'] = agg['max_depth']
         cov['distinct_outcomes'] = outcomes
+    elif level == 'model_checking':
+        # input-space enumeration: no state graph; every case is compared with the reference on the real code
+        cov['cases_compared_with_reference_on_impl'] = agg['validated']
     if agg['evaluations'] or level != 'model_checking':
         cov['evaluations'] = agg['evaluations']
         cov['distinct_nontrivial'] = agg['distinct']
